@@ -54,6 +54,7 @@ class SimWriteFile(object):
         if text:
             with REAL_OPEN(self.name, 'ab') as f:
                 f.write(_translate(text, self._newline).encode(self.encoding, self.errors))
+            self.fs.stamp(self.name)
 
     def _flush_all(self):
         text = ''.join(self._buf)
@@ -227,6 +228,25 @@ class SimFS(object):
         self.opens = 0
         self.passthrough = 0
         ctx.fs = self
+        sw = getattr(ctx, 'swarm', None) or {}
+        # modification times come from the simulated clock at the granularity of the simulated file system (1 s: ext3,
+        # HFS+; 2 s: FAT; 1 ms: modern); None leaves the real clock's time stamps alone
+        self.mtime_res = sw.get('fs_mtime_res', 1.0)
+        # the locale's encoding on the writer's side (used when open() is given none); readers default to UTF-8
+        self.write_encoding = sw.get('fs_write_encoding', 'utf-8')
+        self.enc = {}            # path -> encoding the file was written with
+
+    def stamp(self, path):
+        clock = getattr(self.ctx, 'clock', None)
+        if clock is None or self.mtime_res is None:
+            return
+        try:
+            sec = (clock.t - _dt.datetime(1970, 1, 1)).total_seconds()
+            sec = (sec // self.mtime_res) * self.mtime_res
+            sec = sec % float(2 ** 31)
+            os.utime(path, (sec, sec))
+        except (OverflowError, OSError, ValueError):
+            pass
 
     def path(self, name):
         return os.path.join(self.root, name)
@@ -242,10 +262,15 @@ class SimFS(object):
     def disarm(self):
         f = self._armed
         self._armed = None
+        if f is not None and f.get('ever'):
+            f['fired'] = True
         return f
 
     def last_fault(self):
-        return self._last
+        f = self._last
+        if f is not None and f.get('ever'):
+            f['fired'] = True
+        return f
 
     def _inside(self, file):
         try:
@@ -267,7 +292,13 @@ class SimFS(object):
             return REAL_OPEN(file, mode, buffering, encoding, errors, newline, closefd, opener)
         self.opens += 1
         fault = self._armed
-        self._armed = None
+        if fault is not None and fault.get('persistent'):
+            # the condition lasts (a full disk, a read-only mount): every open during the call meets it again
+            if fault.get('fired'):
+                fault['ever'] = True
+            fault['fired'] = False
+        else:
+            self._armed = None
         self._last = fault
         if m == 'r':
             if fault is not None and fault['kind'] == 'read_open_error':
@@ -290,13 +321,16 @@ class SimFS(object):
             raise FileExistsError(errno.EEXIST, 'File exists', path)
         if m in ('w', 'x'):
             REAL_OPEN(path, 'w').close()          # truncation is durable at open
+            self.stamp(path)
         elif not os.path.exists(path):
             REAL_OPEN(path, 'w').close()
+            self.stamp(path)
+        self.enc[path] = encoding or self.write_encoding
         if fault is not None and fault['kind'] == 'crash_post_open':
             fault['fired'] = True
             self.fired('crash_post_open')
             raise SimCrash('post_open')
-        return SimWriteFile(self, path, m, newline, fault, encoding, errors)
+        return SimWriteFile(self, path, m, newline, fault, encoding or self.write_encoding, errors)
 
     def install(self):
         if self._installed:
@@ -316,7 +350,7 @@ class SimFS(object):
         if not os.path.exists(p):
             return None
         with REAL_OPEN(p, 'rb') as f:
-            return f.read().decode('utf-8', 'replace')      # what a UTF-8 consumer of the file sees
+            return f.read().decode(self.enc.get(p, 'utf-8'), 'replace')      # the text its writer put there
 
     def cleanup(self):
         self.uninstall()
